@@ -299,10 +299,26 @@ func runC03(c *fw.Ctx) {
 				if r.Intn(3) == 0 {
 					_, present := t.model[p]
 					c.Tracef("%s del %q", t.name, p)
+					own := ""
+					if !present {
+						own = c03observe(t)
+					}
 					_, err := t.t.Delete(util.Path(p))
 					if present && err != nil {
 						fail("%s: Delete(%q) of a path visible to the child failed: %v", t.name, p, err)
 						return
+					}
+					if !present {
+						// deleting an absent path changes nothing: root, content, pending changes and pending deletes stay as they were
+						if err == nil {
+							fail("%s: Delete(%q) of a path that is not visible to the child reported success", t.name, p)
+							return
+						}
+						if a := c03observe(t); a != own {
+							fail("%s: Delete(%q) of an absent path changed the trie's own observation tuple\n--- before ---\n%s\n--- after ---\n%s", t.name, p, clip(own, 1200), clip(a, 1200))
+							return
+						}
+						c.Count("absent_deletes_leave_own_tuple_unchanged", 1)
 					}
 					if present {
 						delete(t.model, p)
@@ -542,7 +558,7 @@ func init() {
 		Rule: "each case is one block history: a base state (memory or persistent store), a block trie P layered over it, and 6..24 (quick) / 6..46 (thorough) steps drawn from {open a child of P or a grandchild, 1-3 insert/delete operations inside an open child, " +
 			"a direct write on P, merge a child into its parent (fresh or stale; MergeMPTChanges, or for a quarter MergeChanges with the child's GetChanges()), discard a child}; several children are open at the same time. Two wirings alternate: a fresh cache per trie, and one block cache shared by per-trie transaction caches committed on merge. " +
 			"Monitors: child view == parent-at-open ⊕ own writes (map model, after every child operation); the observation tuple (root, Iterate content, pending changes hash->encoding/old hash, pending deletes, start root) of every other open trie is byte-identical " +
-			"before/after child operations, discards and rejected merges; a stale merge must be rejected; after a successful merge parent root/content == child's; pending changes are keyed by the hash of their encoding and equal the stored node; after every child operation and merge, for tries none of whose ancestors has moved on: every node reachable from the current root (walked in the store, not through the cache) is available below the trie's own level or is one of its pending new nodes, and no node recorded as deleted is reachable; at the end of half of the blocks the pending changes are saved on top of a copy of the base state and a fresh trie must read the block's content from that store alone. " +
+			"before/after child operations, discards and rejected merges; a stale merge must be rejected; after a successful merge parent root/content == child's; pending changes are keyed by the hash of their encoding and equal the stored node; a delete of a path the child does not see must fail and leave the child's own tuple (root, content, pending changes and deletes) identical; after every child operation and merge, for tries none of whose ancestors has moved on: every node reachable from the current root (walked in the store, not through the cache) is available below the trie's own level or is one of its pending new nodes, and no node recorded as deleted is reachable; at the end of half of the blocks the pending changes are saved on top of a copy of the base state and a fresh trie must read the block's content from that store alone. " +
 			"non-trivial = block with at least one successful merge and at least one discard or stale merge; distinct by trace hash",
 		Cases: func(tier string) int {
 			if tier == "thorough" {
@@ -551,7 +567,7 @@ func init() {
 			return 40000
 		},
 		Run:    runC03,
-		Floors: map[string]int64{"collector_vs_reachability_checks": 100000, "blocks": 20000, "merges": 20000, "discards": 10000, "stale_merges": 2000, "tuple_comparisons": 100000, "child_ops": 100000, "blocks_with_grandchildren": 2000, "merges_via_MergeChanges": 5000, "blocks_saved_and_reread": 15000, "earlier_values_reinserted": 20000},
+		Floors: map[string]int64{"collector_vs_reachability_checks": 100000, "absent_deletes_leave_own_tuple_unchanged": 20000, "blocks": 20000, "merges": 20000, "discards": 10000, "stale_merges": 2000, "tuple_comparisons": 100000, "child_ops": 100000, "blocks_with_grandchildren": 2000, "merges_via_MergeChanges": 5000, "blocks_saved_and_reread": 15000, "earlier_values_reinserted": 20000},
 		Assumptions: []string{
 			"after a parent's root moves (successful merge of a sibling or direct write), the remaining children are stale: only the rejection of their merge and the parent's unchangedness are checked, not their views",
 			"a stale child whose merge would change the parent must be rejected with an error (accepting it silently drops a published sibling)",
